@@ -11,7 +11,10 @@ use paseto_core::paserk::PieWrapVersion;
 use super::{LocalKey, V3};
 
 impl LocalKey {
-    fn wrap_keys(&self, nonce: &[u8; 32]) -> (ctr::Ctr64BE<aes::Aes256>, hmac::Hmac<sha2::Sha384>) {
+    fn wrap_keys(
+        &self,
+        nonce: &[u8; 32],
+    ) -> (ctr::Ctr128BE<aes::Aes256>, hmac::Hmac<sha2::Sha384>) {
         use cipher::KeyIvInit;
         use digest::Mac;
 
@@ -20,7 +23,7 @@ impl LocalKey {
         let n2 = generic_array::GenericArray::from(paseto_core::verif::counter_override(n2.into()));
         let ak = kdf(&self.0, 0x81, nonce);
 
-        let cipher = ctr::Ctr64BE::<aes::Aes256>::new(&ek, &n2);
+        let cipher = ctr::Ctr128BE::<aes::Aes256>::new(&ek, &n2);
         let mac = hmac::Hmac::new_from_slice(&ak[..32]).expect("key should be valid");
         (cipher, mac)
     }
